@@ -8,7 +8,7 @@ NA = {
  "C14":"the inverse pair is strconv.Quote vs the generated STRING lexer rule and ANTLR parser; no Go-side contract can decide it (DESIGN §4 C14)",
  "C17":"needs denotational semantics of two generated grammars (Excellent1, Excellent3); not expressible as contracts on the Go functions without modelling both languages (DESIGN §4 C17)",
 }
-PENDING_REASON = "check not built: the hand-written scanner works through bufio.Reader / bytes.Buffer / strings.Builder, whose ghost model (input position, output sequence) the contracts need was not finished; the generated lexer half is out of reach anyway (DESIGN §4 C12, §8.1)"
+PENDING_REASON = "check not built (DESIGN §8.1)"
 TECH = "contract-based deductive verification: VCs generated from go/ssa of the real functions against //@ contracts, discharged by SMT (z3 5.1/4.8, cvc5)"
 allids = [json.loads(l)["id"] for l in open("/verif/properties.jsonl")]
 checks=[]; claimed=[]
